@@ -693,7 +693,7 @@ def run(chk):
     minimal_independence_probe(chk, C, cp)
 
     cases = systematic_cases()
-    n_random = 2500 if not thorough else 40000
+    n_random = 7000 if not thorough else 120000
     for i in range(n_random):
         r = rng.random()
         cases.append(random_case(rng, "random" if r < 0.8 else ("shared-names" if r < 0.9 else "malformed")))
